@@ -68,7 +68,7 @@ def plan(tier):
                 if cname.startswith("slot") or cname in ("just_above", "below_by_1"):
                     emit("c30_drem_b%s_s%d_%s" % (bn, span, cname), span + 4, "dense_remove(%d, %d, %d);" % (base, span, idx),
                          {"state": "Dense", "base": base, "span": span, "removed_row": cname}, "dense_remove")
-            if base == 2 and span == 2:
+            if tier != "quick" and base == 2 and span == 1:
                 for cname in ("slot0", "just_above", "below_by_1"):
                     for fl in (1, 0):
                         emit("c30_spill_%s_%s" % (cname, "float" if fl else "bool"), span + 8,
